@@ -16,7 +16,9 @@ EXPLANATION = (
     "per-packet repetition (loop body, or closure handed to fold/try_fold/map/many0/count); (R15.3) the "
     "remainder handed back per packet is not copied into an owned buffer per packet; (R15.4) every "
     "template admitted to a cache passed a guard that rejects zero-length fields, so each materialised "
-    "field consumed at least one input byte. R15.3 and R15.4 fail on the current tree and are listed as "
+    "field consumed at least one input byte; (R15.5) a cached template / a whole cache is borrowed, never copied, "
+    "on the parse path; (R15.6) an owned accumulator threaded through fold/try_fold or carried round a loop is "
+    "extended in place, never rebuilt from itself. R15.3 and R15.4 fail on the current tree and are listed as "
     "known findings (public API / the suite requires zero-length fields)."
 )
 ASSUMPTIONS = ["nom::multi::count caps its own pre-allocation (dependency code, not analysed)",
